@@ -3,8 +3,10 @@
    or 2..n parts whose bodies contain no line containing the boundary token:  response_parse (S r) = POk r' with r' = r up to the
    derived headers.  PROVED for one part (C15_single_part_round_trip: every status of the regenerated table, any header list, any body
    bytes, any range start <= end <= size) - where the instance serialiser is shown to lose the content type for EVERY such response
-   (finding C15-F2, now characterised in general); several parts: by evaluation of representative values and by correspondence. *)
-From Rws Require Import Str Utf8 Num Fs UrlParse RangeSpec Request GenMime Mime StaticRes GenConsts Forms Server RespParse RespDomain C15Proof C15Round.
+   (finding C15-F2, now characterised in general) - and for two or more parts (C15_multi_part_round_trip: any number of parts, any body
+   bytes as long as no body line is valid UTF-8 and contains the separator text, the condition under which the reader itself stops).
+   Both domains are decidable predicates the model runner evaluates on every generated case. *)
+From Rws Require Import Str Utf8 Num Fs UrlParse RangeSpec Request GenMime Mime StaticRes GenConsts Forms Server RespParse RespDomain C15Proof C15Round C15Multi.
 Open Scope N_scope.
 
 Theorem C15_single_part_round_trip : forall inst r, single_ok r = true ->
@@ -20,6 +22,19 @@ Theorem C15_single_part_domain :
   single_ok resp_single = true /\
   single_ok (mkPresp HTTP11 404 (reason 404) [mkH [88;45;65] [98;58;32;99]; mkH [86;97;114;121] []] [(0, 0, [48], [], [116;101;120;116;47;104;116;109;108])]) = true /\
   single_ok (mkPresp HTTP11 200 (reason 200) [] [(9223372036854775806, 9223372036854775807, show_N 9223372036854775807, [255; 0; 13; 10; 13; 10], [97;47;98])]) = true.
+Proof. vm_compute. repeat split. Qed.
+
+(* two or more parts, both serialisers: the parse returns the status, the given headers followed by the multipart Content-Type, and
+   every part with its range, size text, body bytes and type *)
+Theorem C15_multi_part_round_trip : forall inst r, multi_ok r = true ->
+  response_parse (lib_generate inst r) =
+  POk (mkPresp (pr_version r) (pr_status r) (pr_reason r) (pr_headers r ++ [mkH Hd_CONTENT_TYPE Rg_MULTIPART_BYTERANGES_CONTENT_TYPE]) (pr_ranges r)).
+Proof. exact multi_ok_round_trip. Qed.
+(* the domain is inhabited: binary, empty and CR LF bodies; a body containing dashes and a body line that holds the separator but is not UTF-8 *)
+Theorem C15_multi_part_domain :
+  multi_ok resp_multi = true /\
+  multi_ok (mkPresp HTTP11 200 (reason 200) [] [(0, 1, [50], [45;45;45;45], [97;47;98]); (1, 1, [50], [255] ++ Rg_STRING_SEPARATOR ++ [10; 45], [97;47;98])]) = true /\
+  multi_ok (mkPresp HTTP11 200 (reason 200) [] [(0, 1, [50], [120], [97;47;98]); (1, 1, [50], Rg_STRING_SEPARATOR, [97;47;98])]) = false.
 Proof. vm_compute. repeat split. Qed.
 
 (* proved for representative values by computation: three parts with binary, empty and CRLF bodies through both serialisers; one
